@@ -6,13 +6,16 @@ import (
 	"fmt"
 	"os"
 	"runtime/debug"
+	"strings"
 )
 
 // Progress records the case about to run, so that a crash of this process can be attributed to it.
 func (c *Ctx) Progress(v interface{}) {
+	c.lastProgress = v
 	if c.Out == "" {
 		return
 	}
+	c.lastProgress = v
 	b, err := json.Marshal(v)
 	if err == nil {
 		os.WriteFile(c.Out+".progress", b, 0o644)
@@ -20,6 +23,7 @@ func (c *Ctx) Progress(v interface{}) {
 }
 
 type Ctx struct {
+	lastProgress interface{}
 	Out    string
 	Prop   string
 	Tier   string
@@ -63,7 +67,14 @@ func main() {
 	func() {
 		defer func() {
 			if r := recover(); r != nil {
-				c.R.Disagree("harness-panic", fmt.Sprintf("harness panicked: %v\n%s", r, debug.Stack()), nil)
+				st := string(debug.Stack())
+				if strings.Contains(st, "ergo.services/ergo/") {
+					// an unrecovered panic inside the framework, reached through the public API by the case in progress
+					c.R.Violation("crash/panic: "+fmt.Sprint(r), "the real code panicked in the goroutine of an API call: "+fmt.Sprint(r),
+						map[string]interface{}{"case_in_progress": c.lastProgress, "stack": st})
+				} else {
+					c.R.Disagree("harness-panic", fmt.Sprintf("harness panicked: %v\n%s", r, st), nil)
+				}
 			}
 		}()
 		f(c)
